@@ -70,6 +70,21 @@ theorem retainedFlags_get {α : Type} [Arith α] (kind : ExtKind) (bs : List (Li
     (hi : i < bs.length) : (retainedFlags kind bs)[i]? = some (!domB kind bs i) := by
   simp [retainedFlags_eq, hi]
 
+/-- fix 46b0121: the flags actually used keep every non-dominated operand (and the possibly undefined ones). -/
+theorem retainedFlagsE_length {α : Type} [Arith α] (kind : ExtKind) (es : List (Exp α)) (bs : List (Lin.Bounds α))
+    (h : bs.length = es.length) : (retainedFlagsE kind es bs).length = es.length := by
+  simp [retainedFlagsE, retainedFlags_length, h]
+
+theorem retainedFlagsE_covers {α : Type} [Arith α] (kind : ExtKind) (es : List (Exp α)) (bs : List (Lin.Bounds α))
+    (h : bs.length = es.length) :
+    ∀ j : Nat, (retainedFlags kind bs)[j]? = some true → (retainedFlagsE kind es bs)[j]? = some true := by
+  intro j hj
+  have hjl : j < (retainedFlags kind bs).length := by
+    by_contra hc; rw [List.getElem?_eq_none (by omega)] at hj; cases hj
+  have hje : j < es.length := by rw [retainedFlags_length] at hjl; omega
+  simp only [retainedFlagsE, List.getElem?_zipWith, hj, List.getElem?_eq_getElem hje, Option.map_some,
+    Option.bind_some, Bool.true_or]
+
 /-- the `i`-th interval (unbounded beyond the list). -/
 def bAt {α : Type} [Arith α] (bs : List (Lin.Bounds α)) (i : Nat) : Lin.Bounds α := bs.getD i Lin.Bounds.unbounded
 
@@ -320,8 +335,9 @@ theorem bAt_of_lt {α : Type} [Arith α] {bs : List (Lin.Bounds α)} {i : Nat} (
   simp [bAt, List.getD, hi]
 
 /-- every operand value is below a retained one (max) … -/
-theorem prune_max_vals {obs : List (Lin.Bounds (Ext K))} {vs : List K} (hE : List.Forall₂ Encl obs vs) :
-    ∀ y ∈ vs, ∃ z ∈ selectFlagged vs (retainedFlags .max obs), y ≤ z := by
+theorem prune_max_vals {obs : List (Lin.Bounds (Ext K))} {vs : List K} (hE : List.Forall₂ Encl obs vs)
+    {fl : List Bool} (hcov : ∀ j : Nat, (retainedFlags .max obs)[j]? = some true → fl[j]? = some true) :
+    ∀ y ∈ vs, ∃ z ∈ selectFlagged vs fl, y ≤ z := by
   obtain ⟨hlen, hget⟩ := List.forall₂_iff_get.mp hE
   have hnn := noNaN_of_encl hE
   have key := Gadget.prune_max_exists (K := K) (fun a => toB (Ext.fin a)) toB_fin_le obs.length (loB obs) (upB obs)
@@ -338,7 +354,7 @@ theorem prune_max_vals {obs : List (Lin.Bounds (Ext K))} {vs : List K} (hE : Lis
   obtain ⟨j, hj, hnd, hle⟩ := key i (by omega)
   have hj' : j < vs.length := by omega
   refine ⟨vs[j], ?_, ?_⟩
-  · refine mem_selectFlagged.mpr ⟨j, by simp [hj'], ?_⟩
+  · refine mem_selectFlagged.mpr ⟨j, by simp [hj'], hcov j ?_⟩
     rw [retainedFlags_get _ _ _ hj]
     have : domB .max obs j = false := by
       cases hd : domB .max obs j with
@@ -350,8 +366,9 @@ theorem prune_max_vals {obs : List (Lin.Bounds (Ext K))} {vs : List K} (hE : Lis
     rw [← h1, ← h2]; exact hle
 
 /-- … and above a retained one (min). -/
-theorem prune_min_vals {obs : List (Lin.Bounds (Ext K))} {vs : List K} (hE : List.Forall₂ Encl obs vs) :
-    ∀ y ∈ vs, ∃ z ∈ selectFlagged vs (retainedFlags .min obs), z ≤ y := by
+theorem prune_min_vals {obs : List (Lin.Bounds (Ext K))} {vs : List K} (hE : List.Forall₂ Encl obs vs)
+    {fl : List Bool} (hcov : ∀ j : Nat, (retainedFlags .min obs)[j]? = some true → fl[j]? = some true) :
+    ∀ y ∈ vs, ∃ z ∈ selectFlagged vs fl, z ≤ y := by
   obtain ⟨hlen, hget⟩ := List.forall₂_iff_get.mp hE
   have hnn := noNaN_of_encl hE
   have key := Gadget.prune_min_exists (K := K) (fun a => toB (Ext.fin a)) toB_fin_le obs.length (loB obs) (upB obs)
@@ -368,7 +385,7 @@ theorem prune_min_vals {obs : List (Lin.Bounds (Ext K))} {vs : List K} (hE : Lis
   obtain ⟨j, hj, hnd, hle⟩ := key i (by omega)
   have hj' : j < vs.length := by omega
   refine ⟨vs[j], ?_, ?_⟩
-  · refine mem_selectFlagged.mpr ⟨j, by simp [hj'], ?_⟩
+  · refine mem_selectFlagged.mpr ⟨j, by simp [hj'], hcov j ?_⟩
     rw [retainedFlags_get _ _ _ hj]
     have : domB .min obs j = false := by
       cases hd : domB .min obs j with
@@ -384,11 +401,12 @@ theorem selectFlagged_subset {β : Type} {xs : List β} {fs : List Bool} {y : β
   exact List.mem_of_getElem? h1
 
 /-- the maximum of the retained values is the maximum of all values. -/
-theorem max_pruned {obs : List (Lin.Bounds (Ext K))} {x : K} {xs : List K} (hE : List.Forall₂ Encl obs (x :: xs)) :
-    ∃ y ys, selectFlagged (x :: xs) (retainedFlags .max obs) = y :: ys ∧ ys.foldl max y = xs.foldl max x := by
-  have hp := prune_max_vals hE
+theorem max_pruned {obs : List (Lin.Bounds (Ext K))} {x : K} {xs : List K} (hE : List.Forall₂ Encl obs (x :: xs))
+    {fl : List Bool} (hcov : ∀ j : Nat, (retainedFlags .max obs)[j]? = some true → fl[j]? = some true) :
+    ∃ y ys, selectFlagged (x :: xs) fl = y :: ys ∧ ys.foldl max y = xs.foldl max x := by
+  have hp := prune_max_vals hE hcov
   obtain ⟨z, hz, _⟩ := hp x (by simp)
-  cases hsel : selectFlagged (x :: xs) (retainedFlags .max obs) with
+  cases hsel : selectFlagged (x :: xs) fl with
   | nil => rw [hsel] at hz; cases hz
   | cons y ys =>
     refine ⟨y, ys, rfl, ?_⟩
@@ -402,11 +420,12 @@ theorem max_pruned {obs : List (Lin.Bounds (Ext K))} {x : K} {xs : List K} (hE :
       rw [← hsel] at hw
       exact Gadget.le_foldl_max x xs w (selectFlagged_subset hw)
 
-theorem min_pruned {obs : List (Lin.Bounds (Ext K))} {x : K} {xs : List K} (hE : List.Forall₂ Encl obs (x :: xs)) :
-    ∃ y ys, selectFlagged (x :: xs) (retainedFlags .min obs) = y :: ys ∧ ys.foldl min y = xs.foldl min x := by
-  have hp := prune_min_vals hE
+theorem min_pruned {obs : List (Lin.Bounds (Ext K))} {x : K} {xs : List K} (hE : List.Forall₂ Encl obs (x :: xs))
+    {fl : List Bool} (hcov : ∀ j : Nat, (retainedFlags .min obs)[j]? = some true → fl[j]? = some true) :
+    ∃ y ys, selectFlagged (x :: xs) fl = y :: ys ∧ ys.foldl min y = xs.foldl min x := by
+  have hp := prune_min_vals hE hcov
   obtain ⟨z, hz, _⟩ := hp x (by simp)
-  cases hsel : selectFlagged (x :: xs) (retainedFlags .min obs) with
+  cases hsel : selectFlagged (x :: xs) fl with
   | nil => rw [hsel] at hz; cases hz
   | cons y ys =>
     refine ⟨y, ys, rfl, ?_⟩
